@@ -819,6 +819,32 @@ pub fn regression_cases() -> Vec<SearchCase> {
         queries: q,
         sec60_every: 2,
     });
+    // all-year DST (this year's end coincides with next year's start) behind a table whose last transition is that very instant
+    {
+        let est = MLtt::new(-18_000, false, Some("EST"));
+        let edt = MLtt::new(-14_400, true, Some("EDT"));
+        let all = MRule { std: est.clone(), dst: edt.clone(), start: MDay::J0(0), start_time: 0, end: MDay::J1(365), end_time: 25 * 3600 };
+        let mut qq = vec![];
+        for sel in 0..16u32 {
+            for side in 0..2u8 {
+                for delta in [-1, 0, 1, 1800, 3599, 3600] {
+                    qq.push(Query::AtEvent { sel: sel * (u32::MAX / 16) + 7, side, delta });
+                }
+            }
+        }
+        for y in [2000i64, 2001] {
+            let t = all.s(y);
+            for delta in [-1i64, 0, 1, 1800, 3599, 3600, 3601] {
+                for off in [est.off, edt.off] {
+                    if let Some(f) = Fields::from_civil(&cal::civil_from_unix((t + off as i64 + delta) as i128), 0) {
+                        qq.push(Query::Civil(f));
+                    }
+                }
+            }
+            v.push(SearchCase { zone: MZone { trans: vec![(t, 1)], types: vec![est.clone(), edt.clone()], leaps: vec![], trailer: MTrailer::Alt(all.clone()) }, base_year: y, queries: qq.clone(), sec60_every: 0 });
+            v.push(SearchCase { zone: MZone { trans: vec![(t - 86_400 * 200, 1), (t, 1)], types: vec![est.clone(), edt.clone()], leaps: vec![], trailer: MTrailer::Alt(all.clone()) }, base_year: y, queries: qq.clone(), sec60_every: 0 });
+        }
+    }
     // both ends of the calendar (first / last seconds, incl. 23:59:60 of the last day) in fixed, table-only and DST-rule zones of either sign
     let mut edge = vec![];
     for (y, mo, d) in [(i32::MAX, 12u8, 31u8), (i32::MAX, 12, 30), (i32::MIN, 1, 1), (i32::MIN, 1, 2)] {
@@ -889,7 +915,10 @@ pub fn run_search(ctx: &Ctx, focus: Focus, rule_text: &str) -> Outcome {
     // year-edge corner rules (rule day in the first / last days of the year, extreme day times and offsets: a transition of one year
     // then falls up to nine days into the neighbouring year), searched just before / at / inside / after every event of a 7-year window
     {
-        let rules = crate::orule::corner_rules(&[-604_799, -601_200, 0, 601_200, 604_799], &[-89_999, 0, 93_599]);
+        let mut rules = crate::orule::corner_rules(&[-604_799, -601_200, 0, 601_200, 604_799], &[-89_999, 0, 93_599]);
+        // a third of the rules with both days at one edge of the year, and the rules that tie in some years only
+        rules.extend(crate::orule::both_edge_rules().into_iter().step_by(3));
+        rules.extend(crate::orule::tie_family_rules());
         let mut queries = vec![];
         for k in 0..16u32 {
             for side in 0..2u8 {
